@@ -306,6 +306,59 @@ def attr_writes(fa: FA, dotted: str):
     return out
 
 
+def static_value(fa: FA, e, at, depth=0):
+    """The literal a table name denotes: a local bound once, a module-level NAME = <literal>, a class-level
+    attribute read as cls.NAME / self.NAME / <Class>.NAME; wrappers tuple(..) / list(..) / frozenset(..) / set(..) /
+    dict(..) of one literal are looked through.  Anything else is returned as it is."""
+    if depth > 6 or e is None:
+        return e
+    if isinstance(e, ast.Name):
+        if fa.df.is_local(e.id):
+            ds = fa.df.reaching(at, e.id) if at is not None else []
+            if len(ds) == 1 and ds[0].kind == "assign" and ds[0].value is not None:
+                return static_value(fa, ds[0].value, ds[0].node, depth + 1)
+            return e
+        v = fa.fi.module.assigns.get(e.id)
+        return static_value(fa, v, None, depth + 1) if v is not None else e
+    if isinstance(e, ast.Attribute) and isinstance(e.value, ast.Name):
+        cls = getattr(fa.fi, "cls", None)
+        cnode = getattr(cls, "node", None)
+        if cnode is not None and (e.value.id in ("cls", "self") or e.value.id == cnode.name):
+            for st in cnode.body:
+                if isinstance(st, ast.Assign) and any(isinstance(t, ast.Name) and t.id == e.attr for t in st.targets):
+                    return static_value(fa, st.value, None, depth + 1)
+                if isinstance(st, ast.AnnAssign) and isinstance(st.target, ast.Name) and st.target.id == e.attr and st.value is not None:
+                    return static_value(fa, st.value, None, depth + 1)
+        return e
+    if isinstance(e, ast.Call) and isinstance(e.func, ast.Name) and e.func.id in ("tuple", "list", "frozenset", "set", "dict", "OrderedDict") and len(e.args) == 1 and not e.keywords:
+        return static_value(fa, e.args[0], at, depth + 1)
+    return e
+
+
+def class_units(ck, fa: FA, limit=12):
+    """A function together with the pieces it was split into: the function itself, its nested functions and every
+    function of its class / module it refers to (called on the spot, or picked first — `walker = self._walk_flat` — and
+    called later), transitively.  -> [FuncInfo]"""
+    cls = fa.fi.cls
+    out, todo = [], [fa.fi]
+    while todo and len(out) < limit:
+        fi = todo.pop(0)
+        if any(fi is x for x in out):
+            continue
+        out.append(fi)
+        todo += list(fi.nested.values())
+        for n in A.walk_body(fi.node):
+            tgt = None
+            if isinstance(n, ast.Attribute) and isinstance(n.value, ast.Name) and isinstance(n.ctx, ast.Load) and cls is not None \
+                    and n.value.id in ("self", "cls", cls.node.name) and n.attr in cls.methods:
+                tgt = cls.methods[n.attr]
+            elif isinstance(n, ast.Name) and isinstance(n.ctx, ast.Load) and n.id in fi.module.functions:
+                tgt = fi.module.functions[n.id]
+            if tgt is not None and not any(tgt is x for x in out) and not any(tgt is x for x in todo):
+                todo.append(tgt)
+    return out
+
+
 def _simplify(conds):
     cs = set(conds)
     changed = True
@@ -400,6 +453,168 @@ def return_cases(fa: FA, cap: int = 4000):
     if count[0] > cap:
         return None
     return [(v, a_, _simplify(conds)) for (v, a_, conds) in res.values()]
+
+
+def path_cases(fa: FA, expr, at: int, also=(), cap: int = 20000):
+    """What `expr`, evaluated at cfg node `at`, holds per path class: [(value expr, cfg node where that value was
+    computed, set of frozensets of branch literals)].  A local stands for the value last assigned to it ON THAT PATH
+    (`x = default` ... `if c: x = other` gives `other` under c and `default` under not c — whatever the spelling:
+    default first, if/else, conditional expression, `a or b`); the literals are those of FA.conditions plus the tests
+    of the conditional expressions / `or` chains that select the value.  Only branch literals that mention a name the
+    value is computed from (or one of `also`) are kept: the others cannot tell the cases apart, and dropping them keeps
+    the number of path classes small whatever else the function branches on.  None when there are too many."""
+    import re as _re
+    cfg = fa.cfg
+    res = {}
+    count = [0]
+    alts_memo = getattr(fa, "_alts_memo", None)
+    if alts_memo is None:
+        alts_memo = fa._alts_memo = {}
+
+    # names the value may be computed from (flow-insensitive closure over plain assignments, tests of conditional values included)
+    rel = {n.id for n in ast.walk(expr) if isinstance(n, ast.Name)} | set(also)
+    changed = True
+    while changed:
+        changed = False
+        for defs in fa.df.gen.values():
+            for d in defs:
+                if d.name in rel and d.value is not None:
+                    new = {n.id for n in ast.walk(d.value) if isinstance(n, ast.Name)} - rel
+                    if new:
+                        rel |= new
+                        changed = True
+    word = _re.compile(r"(?<![A-Za-z0-9_.])(%s)(?![A-Za-z0-9_])" % "|".join(sorted(_re.escape(x) for x in rel))) if rel else None
+    keep_memo = {}
+    # tests that decide WHETHER one of those names is (re)bound, or whether the way to `at` is left early: the tests
+    # of the if / while statements around such a binding / jump keep all their literals
+    deciding = set()
+    for st in fa.stmts():
+        binds = isinstance(st, (ast.Return, ast.Raise, ast.Break, ast.Continue)) or \
+            (isinstance(st, (ast.Assign, ast.AugAssign, ast.AnnAssign, ast.For, ast.With, ast.Delete))
+             and any(isinstance(n, ast.Name) and isinstance(n.ctx, (ast.Store, ast.Del)) and n.id in rel for n in ast.walk(st)))
+        if not binds:
+            continue
+        x = fa.pm.get(st)
+        while x is not None and not isinstance(x, (ast.FunctionDef, ast.AsyncFunctionDef)):
+            if isinstance(x, (ast.If, ast.While)):
+                deciding.add(id(x.test))
+            x = fa.pm.get(x)
+
+    def keep(lit):
+        if lit[0] not in keep_memo:
+            keep_memo[lit[0]] = bool(word is not None and word.search(lit[0]))
+        return keep_memo[lit[0]]
+
+    def resolve(v, at_, env):
+        hops = 0
+        while isinstance(v, ast.Name) and v.id in env and hops < 20:
+            v, at_ = env[v.id]
+            hops += 1
+        return v, at_
+
+    def split(v, at_, env, depth=0):
+        v, at_ = resolve(v, at_, env)
+        if depth > 8:
+            return [([], v, at_)]
+        if isinstance(v, ast.IfExp):
+            out = []
+            for (pol, arm) in ((True, v.body), (False, v.orelse)):
+                for c_alt in fa._alts(v.test, at_, pol):
+                    for (l_, x_, a_) in split(arm, at_, env, depth + 1):
+                        out.append((c_alt + [l for l in l_ if l not in c_alt], x_, a_))
+            return out
+        if isinstance(v, ast.BoolOp) and isinstance(v.op, ast.Or):
+            out, neg = [], []
+            for i, x in enumerate(v.values):
+                last = i == len(v.values) - 1
+                for (l_, x_, a_) in split(x, at_, env, depth + 1):
+                    out.append((neg + ([] if last else fa._atoms(x, at_, True)) + l_, x_, a_))
+                neg = neg + fa._atoms(x, at_, False)
+            return out
+        return [([], v, at_)]
+
+    def step_env(n, env):
+        gen = fa.df.gen.get(n, [])
+        if not gen or not any(d.name in rel for d in gen):
+            return env
+        env = dict(env)
+        for d in gen:
+            if d.name not in rel:
+                continue
+            if d.kind == "assign" and d.value is not None and "." not in d.name:
+                env[d.name] = (d.value, n)
+            else:
+                env.pop(d.name, None)
+        return env
+
+    seen = set()
+    stack = [(cfg.entry, (), {})]
+    while stack:
+        n, lits, env = stack.pop()
+        state = (n, lits, tuple(sorted((k, v[1]) for k, v in env.items())))
+        if state in seen:
+            continue
+        seen.add(state)
+        count[0] += 1
+        if count[0] > cap:
+            return None
+        if n == at:
+            for (extra, v, a_) in split(expr, at, env):
+                if any((x[0], not x[1]) in lits for x in extra) or any((x[0], not x[1]) in extra for x in extra):
+                    continue
+                res.setdefault(id(v), [v, a_, set()])[2].add(frozenset(lits) | frozenset(extra))
+            continue
+        nd = cfg.node(n)
+        after = step_env(n, env)
+        for (d, l) in cfg.succ[n]:
+            adds = [[]]
+            if nd.kind == "test" and l in ("T", "F") and not isinstance(fa.pm.get(nd.ast), ast.While):
+                if (n, l) not in alts_memo:
+                    alts_memo[(n, l)] = fa._alts(nd.ast, n, l == "T")
+                adds = alts_memo[(n, l)]
+            whole = nd.kind == "test" and id(nd.ast) in deciding
+            for add in adds:
+                if not whole:
+                    add = [a for a in add if keep(a)]
+                if any((a[0], not a[1]) in lits for a in add):
+                    continue
+                stack.append((d, tuple(sorted(set(lits) | set(add))), env if l == "exc" else after))
+    return [(v, a_, _simplify(conds)) for (v, a_, conds) in res.values()]
+
+
+def flag_conditions(fa: FA, name: str, pol: bool):
+    """The conditions (DNF: set of frozensets of literals) under which the local `name`, where it is used as a branch
+    test, comes out `pol`: a verdict prepared in a flag (`needs = c is not None` ... `if other: needs = False` ...
+    `if needs:`) opened up into the tests that decided it.  None when the flag cannot be opened (not a local bound by
+    plain assignments, too many paths)."""
+    if not fa.df.is_local(name):
+        return None
+    tests = [n.id for n in fa.cfg.nodes if n.kind == "test" and any(isinstance(x, ast.Name) and x.id == name for x in ast.walk(n.ast))]
+    if not tests:
+        return None
+    live = fa.cfg.reachable_nodes()
+    out = set()
+    for t in tests:
+        if t not in live:
+            continue
+        cases = path_cases(fa, ast.Name(id=name, ctx=ast.Load()), t)
+        if cases is None:
+            return None
+        for (v, a_, conds) in cases:
+            if isinstance(v, ast.Name) and v.id == name:
+                return None  # (not bound by a plain assignment on some path: a parameter, a loop variable)
+            truth = bool(v.value) if isinstance(v, ast.Constant) else None
+            if truth is not None and truth != pol:
+                continue
+            own = [[]] if truth is not None else fa._alts(v, a_, pol)
+            for c in (conds or {frozenset()}):
+                for o in own:
+                    if any((l[0], not l[1]) in c for l in o):
+                        continue
+                    out.add(frozenset(c) | frozenset(o))
+            if len(out) > 64:
+                return None
+    return out
 
 
 def reaches_avoiding(fa: FA, start: int, avoid, targets) -> bool:
